@@ -13,6 +13,7 @@ import PintModel.Model.Format
 import PintModel.Gen.FormatTables
 import PintModel.Model.Context
 import PintModel.Model.GroupSys
+import PintModel.Model.Rewrite
 import PintModel.Gen.DefaultRegistry
 
 open Lean
@@ -440,6 +441,52 @@ def stepGS (st : DriverState) (j : Json) : DriverState × Json :=
   | some "groups" => (st, okJ (strsJ (gs.groups.map (·.name))))
   | _ => (st, badJ "gs: f")
 
+
+/-! ### unit-rewriting helpers (C15) -/
+
+def stepRw (st : DriverState) (j : Json) : DriverState × Json :=
+  let R0 := st.reg
+  let mode : Mode := { autoconvert := (fBool j "auto").getD false }
+  match fStr j "f" with
+  | some "si_table" => (st, okJ (Json.arr ((Rw.siTable R0).map fun p => Json.arr #[ratJ (p.1 : Rat), Json.str p.2]).toArray))
+  | some "ratio" =>
+    (match fStr j "a", fStr j "b" with
+      | some a, some b => (st, exceptJ (fun r => match r with | some x => ratJ x | none => Json.null) (Rw.dimRatio (registerKeys R0 [(a, 1), (b, 1)]) a b))
+      | _, _ => (st, badJ "rw ratio: a/b"))
+  | some "power" =>
+    (match fRat j "m", fRat j "p" with
+      | some m, some p => (st, okJ (ratJ ((Rw.compactPower m p.num : Int) : Rat)))
+      | _, _ => (st, badJ "rw power: m/p"))
+  | some f =>
+    (match field j "a" >>= jQty? with
+      | none => (st, badJ "rw: a")
+      | some a =>
+        let R := registerKeys R0 a.units
+        match f with
+        | "root" => (st, exceptJ qtyJ (R.toRoot mode a))
+        | "reduced" => (st, exceptJ qtyJ (Rw.toReduced R mode a))
+        | "reduced_units" => (st, okJ (ucJ (Rw.reducedUnits (Rw.ratioFn R) a.units)))
+        | "infer" => (st, exceptJ (ucJ ·) (Rw.inferBaseUnit R a.units))
+        | "compact" =>
+          let unit := fUC j "unit"
+          let R := match unit with | some u => registerKeys R u | none => R
+          (st, exceptJ qtyJ (Rw.toCompact R mode a unit))
+        | "mul_reduced" | "div_reduced" =>
+          (match field j "b" >>= jQty? with
+            | none => (st, badJ "rw: b")
+            | some b =>
+              let R := registerKeys R b.units
+              match R.mulDiv mode (if f == "mul_reduced" then .mul else .div) a (.q b) with
+              | .error e => (st, errJ e)
+              | .ok r => (st, exceptJ qtyJ (Rw.toReduced R mode r)))
+        | "base" =>
+          let gs? : Except Err GS.State := match st.gs with | some g => .ok g | none => defaultGS
+          (match gs? with
+            | .error e => (st, errJ e)
+            | .ok gs => ({ st with gs := some gs }, exceptJ qtyJ (Rw.toBase R gs mode a)))
+        | _ => (st, badJ s!"rw: unknown f {f}"))
+  | none => (st, badJ "rw: f")
+
 /-! ### registry queries (C01, C02, C08) -/
 
 def stepReg (st : DriverState) (op : String) (j : Json) : DriverState × Json :=
@@ -570,6 +617,7 @@ def step (st : DriverState) (j : Json) : DriverState × Json :=
   | some "format" => (st, stepFormat st.reg j)
   | some "ctx" => stepCtx st j
   | some "gs" => stepGS st j
+  | some "rw" => stepRw st j
   | some op => stepReg st op j
 
 end Pint
